@@ -1,3 +1,216 @@
-import VermouthModel.C14
+import VermouthProofs.C14
+import VermouthProofs.C14_Groups
+import VermouthProofs.Iso
+/-!
+# C14 — every unrecognised atom is explained by a known modification or reported
+
+Property theorems about the model `VermouthModel/C14.lean` of
+`vermouth/processors/canonicalize_modifications.py` (DESIGN 5.14).
+
+Vocabulary
+* `findPtmGroups m`            : `find_ptm_atoms` — list of `(atoms, anchors)`;
+* `refPlacements res edges md ptmPred` : all induced placements of the modification `md` in the residue,
+                                 by the verified reference matcher `Iso.allIsosP` under the node predicate of
+                                 `ptm_node_matcher` (a placement lists `(residue node, modification node)`);
+* `coverGraph np n tc frs`     : `_cover_graph(graph, to_cover = tc, fragments = frs)` with `np` the non-PTM nodes
+                                 of `graph`, fuel `n`; `Frag = (modification index, candidate placements in matcher order)`;
+* `coverGraphOld`              : the recursion before the repair of F-C14-1;
+* `IsExactCover np tc frs c` (`Prop`) : `c` consists of candidates, stays inside `np ∪ tc`, covers every atom of `tc`,
+                                 and two chosen placements overlap in non-PTM atoms only;
+* `step`, `fixPtm`             : one iteration of the loop of `fix_ptm` / the whole function.
+-/
 namespace C14
+open Iso
+
+/-! ## find_ptm_atoms -/
+
+/-- Every atom that is flagged `PTM_atom` (or already carries `modifications`) is in exactly one
+group, exactly once, and the groups contain nothing else: the concatenated atom lists of the
+groups are a rearrangement of the extra atoms. -/
+theorem groups_partition (m : Mol) (hk : m.keys.Nodup) :
+    ((findPtmGroups m).flatMap (·.1)).Perm m.extra
+    ∧ ((findPtmGroups m).flatMap (·.1)).Nodup
+    ∧ (∀ a, a ∈ m.extra ↔ ∃ g ∈ findPtmGroups m, a ∈ g.1)
+    ∧ (∀ a ∈ m.extra, ((findPtmGroups m).flatMap (·.1)).count a = 1) := by
+  have hnd := extra_nodup m hk
+  have hp : ((findPtmGroups m).flatMap (·.1)).Perm m.extra :=
+    findGroups_perm (adjOf m.edges) (traverseFuel m) (by unfold traverseFuel; omega) _ _ hnd (Nat.le_refl _)
+  have hnd2 : ((findPtmGroups m).flatMap (·.1)).Nodup := hp.nodup_iff.2 hnd
+  refine ⟨hp, hnd2, ?_, ?_⟩
+  · intro a
+    rw [← hp.mem_iff]
+    simp [List.mem_flatMap]
+  · intro a ha
+    have h1 : ((findPtmGroups m).flatMap (·.1)).count a ≤ 1 := List.nodup_iff_count.1 hnd2 a
+    have h2 : 0 < ((findPtmGroups m).flatMap (·.1)).count a := List.count_pos_iff.2 (hp.mem_iff.2 ha)
+    omega
+
+/-- the flagged atoms are extra atoms (so `groups_partition` speaks about each of them) -/
+theorem flagged_is_extra (m : Mol) (a : Atom) (ha : a ∈ m.atoms) (hf : a.ptm = true) : a.key ∈ m.extra := by
+  unfold Mol.extra
+  exact List.mem_map.2 ⟨a, List.mem_filter.2 ⟨ha, by simp [isExtra, hf]⟩, rfl⟩
+
+/-! ## candidate placements: induced, anchors by name, added atoms by element -/
+
+/-- reading of `ptm_node_matcher`: both nodes exist, their `PTM_atom` flags agree, PTM atoms have equal
+elements, anchors have equal atom names -/
+theorem ptmPred_spec (res : List Atom) (md : Modif) (p t : Int) :
+    ptmPred res md p t = true ↔
+      ∃ mp rt, md.atom? p = some mp ∧ res.find? (fun a => a.key == t) = some rt ∧ rt.ptm = mp.ptm
+        ∧ (mp.ptm = true → elemOf rt.attrs = elemOf mp.attrs)
+        ∧ (mp.ptm = false → nameOf rt.attrs = nameOf mp.attrs) := by
+  unfold ptmPred
+  cases h1 : md.atom? p with
+  | none => simp
+  | some mp =>
+    cases h2 : res.find? (fun a => a.key == t) with
+    | none => simp
+    | some rt =>
+      cases hp : mp.ptm <;> simp [hp]
+
+/-- Every reference placement is an induced subgraph isomorphism of the modification into the
+residue under `ptm_node_matcher` (all modification nodes are mapped, distinct nodes to distinct
+nodes, edges to edges and non-edges to non-edges), and every such isomorphism is found. -/
+theorem refPlacements_spec (res : List Atom) (edges : List (Int × Int)) (md : Modif)
+    (hmd : (modGraph md).keys.Nodup) (p : Placement) :
+    p ∈ refPlacements res edges md ptmPred ↔
+      ∃ f : Iso.Map, p = toPlacement f ∧ f.map Prod.fst = (modGraph md).keys
+        ∧ IsIndIsoP (toGraph (res.map (·.key)) edges) (modGraph md) (ptmPred res md) (Map.toFun f) := by
+  unfold refPlacements
+  simp only [List.mem_map]
+  constructor
+  · rintro ⟨f, hf, rfl⟩
+    exact ⟨f, rfl, (mem_allIsosP_iff _ _ _ hmd f).1 hf⟩
+  · rintro ⟨f, rfl, h1, h2⟩
+    exact ⟨f, (mem_allIsosP_iff _ _ _ hmd f).2 ⟨h1, h2⟩, rfl⟩
+
+theorem mem_of_sameSet {a b : List Placement} (h : sameSet a b = true) (p : Placement) : p ∈ a ↔ p ∈ b := by
+  unfold sameSet at h
+  simp only [Bool.and_eq_true, List.all_eq_true, List.contains_iff_mem] at h
+  exact ⟨fun hp => by simpa using h.1.1 p hp, fun hp => by simpa using h.1.2 p hp⟩
+
+/-- When the recorded candidate lists pass `candsOk`, a fragment handed to `_cover_graph` holds
+exactly the reference placements of its modification. -/
+theorem candsOk_spec (res : List Atom) (edges : List (Int × Int)) (mods : List Modif)
+    (given : List (List Placement)) (h : candsOk res edges mods given = true)
+    (f : Frag) (hf : f ∈ (allowed res edges mods).zip given) (p : Placement) :
+    p ∈ f.2 ↔ p ∈ refPlacements res edges (modAt mods f.1) ptmPred := by
+  unfold candsOk at h
+  simp only [Bool.and_eq_true, List.all_eq_true] at h
+  exact mem_of_sameSet (h.2 f hf) p
+
+/-! ## _cover_graph -/
+
+/-- `cover_sound`: every chosen placement is one of the candidates of the fragment it is attributed to
+(hence, by `candsOk_spec` and `refPlacements_spec`, induced, anchors by name, PTM atoms by element). -/
+theorem cover_sound (np : List Int) (n : Nat) (tc : List Int) (frs : List Frag) (c : Cover)
+    (h : coverGraph np n tc frs = .ok c) : ∀ e ∈ c, ∃ f ∈ frs, f.1 = e.1 ∧ e.2 ∈ f.2 :=
+  (coverWith_exact usable_inside np n tc frs c h).cand
+
+/-- `cover_exact`: a returned cover places every atom that was to be covered in at least one chosen
+placement; every atom that is not a non-PTM atom of the residue (i.e. every PTM atom) in at most one
+— so each to-be-covered PTM atom in exactly one; and no placement uses anything but non-PTM atoms
+of the residue and atoms that were to be covered. -/
+theorem cover_exact (np : List Int) (n : Nat) (tc : List Int) (frs : List Frag) (c : Cover)
+    (h : coverGraph np n tc frs = .ok c) :
+    (∀ a ∈ tc, ∃ e ∈ c, a ∈ patoms e.2)
+    ∧ (c.Pairwise fun e e' => ∀ a, a ∈ patoms e.2 → a ∈ patoms e'.2 → a ∈ np)
+    ∧ (∀ e ∈ c, ∀ a ∈ patoms e.2, a ∈ np ∨ a ∈ tc) :=
+  let x := coverWith_exact usable_inside np n tc frs c h
+  ⟨x.covers, x.disjoint, x.inside⟩
+
+theorem countP_le_one_of_pairwise {α} {l : List α} {q : α → Bool}
+    (h : l.Pairwise fun x y => ¬ (q x = true ∧ q y = true)) : l.countP q ≤ 1 := by
+  induction l with
+  | nil => simp
+  | cons x l ih =>
+    rw [List.pairwise_cons] at h
+    rw [List.countP_cons]
+    by_cases hx : q x = true
+    · have : l.countP q = 0 := by
+        rw [List.countP_eq_zero]
+        intro y hy hqy
+        exact h.1 y hy ⟨hx, hqy⟩
+      simp [hx, this]
+    · have := ih h.2
+      simp [hx]; omega
+
+/-- `cover_exact`, counting form: a to-be-covered atom that is a PTM atom is in exactly one chosen placement. -/
+theorem cover_exact_count (np : List Int) (n : Nat) (tc : List Int) (frs : List Frag) (c : Cover)
+    (h : coverGraph np n tc frs = .ok c) (a : Int) (ha : a ∈ tc) (hp : a ∉ np) :
+    c.countP (fun e => (patoms e.2).contains a) = 1 := by
+  obtain ⟨h1, h2, _⟩ := cover_exact np n tc frs c h
+  have hle : c.countP (fun e => (patoms e.2).contains a) ≤ 1 := by
+    apply countP_le_one_of_pairwise
+    refine h2.imp ?_
+    intro e e' hee ⟨he, he'⟩
+    exact hp (hee a (by simpa using he) (by simpa using he'))
+  have hpos : 0 < c.countP (fun e => (patoms e.2).contains a) := by
+    rw [List.countP_pos_iff]
+    obtain ⟨e, he, hae⟩ := h1 a ha
+    exact ⟨e, he, by simpa using hae⟩
+  omega
+
+/-- `cover_complete`: with the fuel the code effectively has, the search answers `KeyError` only if no
+exact cover exists among the candidate placements — handing `fragments[idx:]` to the recursion does not
+lose covers, because the members of a cover can be applied in fragment order. -/
+theorem cover_complete (np tc : List Int) (frs : List Frag)
+    (h : coverGraph np tc.length tc frs = .keyError) : ¬ ∃ C, IsExactCover np tc frs C := by
+  intro hC
+  obtain ⟨c, hc⟩ := coverGraph_complete np tc.length tc frs (Nat.le_refl _) hC
+  rw [hc] at h
+  cases h
+
+/-- ... and conversely a returned cover is an exact cover: the search succeeds iff one exists. -/
+theorem cover_iff (np tc : List Int) (frs : List Frag) :
+    (∃ c, coverGraph np tc.length tc frs = .ok c) ↔ ∃ C, IsExactCover np tc frs C :=
+  ⟨fun ⟨c, hc⟩ => ⟨c, coverWith_exact usable_inside np _ tc frs c hc⟩,
+   coverGraph_complete np tc.length tc frs (Nat.le_refl _)⟩
+
+/-- `cover_terminates`: the recursion strictly decreases `to_cover`; fuel `to_cover.length` (or more) is
+never exhausted, whatever the candidates are — no hypothesis on the fragments is needed any more. -/
+theorem cover_terminates (np : List Int) (n : Nat) (tc : List Int) (frs : List Frag) (h : tc.length ≤ n) :
+    coverGraph np n tc frs ≠ .outOfFuel :=
+  coverWith_fuel usable_progress np n tc frs h
+
+/-! ## witnesses -/
+
+/-- the input of F-C14-1: residue CA (node 0) with one unknown flagged atom (node 1); the only
+modification consists of the anchor CA alone, its only placement is `{0}` -/
+def w1Frags : List Frag := [(0, [[(0, 0)]])]
+
+/-- `cover_diverges_witness`: BEFORE the repair (`matching <= available` only) the placement `{0}` is
+accepted although it covers nothing that is still to be covered, the recursive call gets the same
+`to_cover` again (`minus [1] {0} = [1]`), and every amount of fuel is exhausted: the real code ended in
+RecursionError. -/
+theorem cover_diverges_witness :
+    minus [1] [(0, 0)] = [1] ∧ ∀ n, coverGraphOld [0] n [1] w1Frags = .outOfFuel := by
+  refine ⟨by decide, ?_⟩
+  intro n
+  induction n with
+  | zero => rfl
+  | succ n ih =>
+    have h : minus [1] [((0 : Int), (0 : Int))] = [1] := by decide
+    simp only [coverGraphOld, coverWith, w1Frags, tryFrags, tryMatches, usableOld] at ih ⊢
+    simp [patoms, h, ih]
+
+/-- the same input with the code as it is now: no cover, `KeyError`, i.e. removal + warning -/
+example : coverGraph [0] 2 [1, 0] w1Frags = .keyError := by decide
+
+/-- backtracking is needed and works: the first placement of the larger modification leaves atom 3
+uncoverable, the second one is completed by the smaller modification -/
+example : coverGraph [0] 4 [1, 2, 3, 0]
+    [(0, [[(0, 0), (1, 1), (2, 2)], [(0, 0), (2, 1), (3, 2)]]), (1, [[(0, 0), (1, 1)]])]
+    = .ok [(0, [(0, 0), (2, 1), (3, 2)]), (1, [(0, 0), (1, 1)])] := by decide
+
+/-- a sub-pattern after its super-pattern: the larger modification is preferred, the smaller one
+covers the rest (`fragments[idx:]` keeps the current fragment available) -/
+example : coverGraph [0, 5] 4 [1, 2, 3, 0, 5]
+    [(0, [[(0, 0), (1, 1), (2, 2)]]), (1, [[(0, 0), (1, 1)], [(5, 0), (3, 1)]])]
+    = .ok [(0, [(0, 0), (1, 1), (2, 2)]), (1, [(5, 0), (3, 1)])] := by decide
+
+/-- `IsExactCover` is satisfiable and refutable -/
+example : IsExactCover [0] [1, 0] [(0, [[(0, 0), (1, 1)]])] [(0, [(0, 0), (1, 1)])] :=
+  coverWith_exact usable_inside [0] 2 [1, 0] _ _ (by decide)
+
 end C14
